@@ -125,7 +125,48 @@ def c15_2(ctx):
 
 
 # ------------------------------------------------------------------ C15.3
+def path_cache_lives_one_call(ctx):
+    """the path cache of ChainFinder.maximum_path / find_ancestral_path holds tails of parent walks: once it is CONSULTED (not only
+    filled) it must not outlive the finder's state -- lock_to_index replaces the finder and moves the anchor, parents change when
+    headers arrive.  Whoever hands a cache in hands a dictionary made for that call, not an attribute kept on an object"""
+    consulted = {}
+    for nm in ("ChainFinder.maximum_path", "ChainFinder.find_ancestral_path"):
+        f = ctx.func(CF, nm)
+        for prm in f.params()[1:]:
+            if "cache" not in prm:
+                continue
+            reads = [n for n in ast.walk(f.node) if (isinstance(n, ast.Subscript) and isinstance(n.ctx, ast.Load) and norm(n.value) == prm) or
+                     (isinstance(n, ast.Call) and isinstance(n.func, ast.Attribute) and n.func.attr in ("get", "__getitem__", "setdefault", "pop") and norm(n.func.value) == prm) or
+                     (isinstance(n, ast.Compare) and any(isinstance(o, (ast.In, ast.NotIn)) for o in n.ops) and any(norm(c_) == prm for c_ in n.comparators))]
+            hands_on = [c for c in ast.walk(f.node) if isinstance(c, ast.Call) and isinstance(c.func, ast.Attribute) and c.func.attr in ("maximum_path", "find_ancestral_path") and any(norm(a) == prm for a in c.args)]
+            consulted[(f.name, prm)] = (bool(reads), bool(hands_on), f)
+    reading = {k for k, v in consulted.items() if v[0]}
+    # a function that only hands its cache on to one that consults it counts as consulting
+    for k, v in consulted.items():
+        if v[1] and any(r[0] == "maximum_path" for r in reading):
+            reading = reading | {k}
+    if not reading:
+        ctx.ok("path-cache-lives-one-call", sample={"consulted": False})
+        return
+    kept = []
+    for q, g in ctx.p.functions.items():
+        if not isinstance(g.node, (ast.FunctionDef, ast.AsyncFunctionDef)) or not g.module.relpath.startswith("pycoin/blockchain/"):
+            continue
+        for c in ast.walk(g.node):
+            if isinstance(c, ast.Call) and isinstance(c.func, ast.Attribute) and c.func.attr in {k[0] for k in reading}:
+                tgt = consulted[[k for k in reading if k[0] == c.func.attr][0]][2]
+                bound = dict(zip(tgt.params()[1:], c.args))
+                bound.update({k.arg: k.value for k in c.keywords if k.arg})
+                for (fn_, prm) in reading:
+                    if fn_ == c.func.attr and prm in bound and isinstance(bound[prm], ast.Attribute):
+                        kept.append((g, c, norm(bound[prm])))
+    ctx.check(not kept, "path-cache-lives-one-call", ctx.where(kept[0][0], kept[0][1]) if kept else CF + ":1",
+              "%s hands `%s` -- a dictionary kept on an object across calls -- to a path walk that consults its cache: tails remembered before lock_to_index replaced the finder (or before new headers changed the parents) are spliced into later walks, and the "
+              "common ancestor of two chains is computed from them" % (kept[0][0].qualname if kept else "", kept[0][2] if kept else ""), sample={"consulted": True, "long_lived_caches_handed_in": len(kept)})
+
+
 def c15_3(ctx):
+    path_cache_lives_one_call(ctx)
     _refcheck(ctx, BC, "BlockChain.tuple_for_index", "bc_tuple_for_index", "index-read")
     _refcheck(ctx, BC, "BlockChain.lock_to_index", "bc_lock_to_index", "lock-order")
     _refcheck(ctx, BC, "BlockChain.length", "bc_length", "length")
